@@ -90,7 +90,7 @@ Handle(s, req) ==
       removed2 == s.removed \/ req.removed
       \* preparePack
       pushonly == req.pushonly
-      refused == stale /\ req.status = "attached" /\ ~pushonly
+      refused == stale /\ req.status = "attached"    \* push-only too (repaired: a push-only stale client was served)
       badseq == ~stale /\ init < req.cp.s
       snap == ~pushonly /\ ~stale /\ ~badseq /\ (init - req.cp.s >= Threshold)
       idx == {i \in (req.cp.s + 1)..init : ~(log2[i].actor = c /\ cpc >= log2[i].cs)}
